@@ -471,7 +471,7 @@ def dmet_cases(draw, tier):
     perm = list(draw(st.permutations(list(range(n)))))
     return {"sys": sysd, "charge": charge, "spin": spin, "basis": basis, "frags": frags,
             "count_form": draw(st.integers(0, 3)) > 0, "solvers": solvers, "loc": loc,
-            "optimizer": draw(st.sampled_from(["newton-1e-9", "newton-1e-9", "newton-1e-9", "default"])),
+            "optimizer": draw(st.sampled_from(["newton-1e-9", "newton-1e-9", "newton-1e-9+probe", "newton-1e-9+probe", "default"])),
             "perm": perm, "frag_order": list(draw(st.permutations(list(range(len(frags)))))),
             "reverse_within": bool(draw(st.booleans()))}
 
